@@ -6,7 +6,7 @@ from . import c15
 ID = "C14"
 FAMILY = "ids"
 RULE = ("random compositions of 1..40 accessories (thorough: up to 60) built with accessory.New plus 0..5 services drawn from "
-        "every service constructor of the catalog, with hidden / primary flags and linked services, explicit ids (including "
+        "every service constructor of the catalog, with hidden / primary flags, linked services and optional characteristics added to a service after later services were added, explicit ids (including "
         "collisions with automatic ones) or automatic ids; ids read from the Go objects and, independently, from the generic "
         "JSON of the container, whose members are checked for HAP well-formedness; every composition is built twice (ids must "
         "be identical). non-trivial = at least two accessories or a linked / hidden / primary service")
@@ -28,6 +28,8 @@ def gen(rng, tier):
             ss = []
             for q in range(rng.randrange(0, 6)):
                 s = rng.choice(svcs)
+                if rng.random() < 0.25:
+                    s += "^%d" % rng.randrange(1, 4)
                 if rng.random() < 0.2:
                     s += "+h"
                 if rng.random() < 0.2:
@@ -43,7 +45,7 @@ def gen(rng, tier):
 
 
 def nontrivial(c):
-    return ";" in c["line"] or "+" in c["line"] or "~" in c["line"]
+    return ";" in c["line"] or "+" in c["line"] or "~" in c["line"] or "^" in c["line"]
 
 
 def outcome_class(c, obs):
